@@ -21,7 +21,8 @@
 (*           or a list (render_async); `render` of an async environment    *)
 (*           delegates to render_async (what Template.render does);        *)
 (*   native_concat: Peek (islice(values, 2)), ReturnNone, ReturnSingle,    *)
-(*           JoinAll (chain(head, rest) for a generator, the list itself   *)
+(*           JoinAll (list(chain(head, rest)) for a generator - the order  *)
+(*           of conversions is spec/NativeOrder.tla - the list itself      *)
 (*           otherwise), Parse (literal_eval or fall back to the text).    *)
 (* TLC checks that every behaviour of the operational layer ends in        *)
 (* Expected(items, lit) (C34_SingleValuePassThrough, C34_ConcatThenLiteral,*)
@@ -128,7 +129,7 @@ SingleText ==
     /\ pc' = "joined"
     /\ UNCHANGED <<items, lit, mode, yielded, values, rest, head, result>>
 
-\* "".join(str(v) for v in chain(head, values))  /  for v in values (a list is iterated again)
+\* "".join(str(v) for v in list(chain(head, values)))  /  for v in values (a list is iterated again)
 JoinAll ==
     /\ pc = "peeked" /\ Len(head) = 2
     /\ raw' = IF values = "generator" THEN Flat(head \o rest) ELSE Flat(rest)
